@@ -73,6 +73,10 @@ RING_LIBRARY = [
     "Oc1ccccn1",              # 2-hydroxypyridine
     "Oc1cccnc1",              # 3-hydroxypyridine
     "Oc1ccncc1",              # 4-hydroxypyridine
+    "Oc1cccnc1O",             # 2,3-dihydroxypyridine
+    "COc1cccnc1OC",           # 2,3-dimethoxypyridine
+    "COc1cc2cccccc2c1",       # 2-methoxyazulene
+    "COc1cccccc1=O",          # 2-methoxytropone
     "COc1ccccn1",             # 2-methoxypyridine
     "O=c1cccc[nH]1",          # 2-pyridone
     "Nc1ccccn1",              # 2-aminopyridine
@@ -423,8 +427,8 @@ def match_case(item):
         for atom in range(g.n):
             for anchor in anchors:
                 if anchor is not None and g.Z[atom] != p.g.Z[anchor]:
-                    # different element: one call per (atom, pattern) is still made below
-                    # through the un-anchored form, which tries every pattern atom
+                    # different element: this pair is still exercised by the un-anchored
+                    # call, which tries every pattern atom
                     continue
                 got, match, exc = call_impl(mol, atom, p.mol, anchor)
                 n_eval += 1
@@ -481,8 +485,15 @@ def variant(mol, spec):
     return pm, pos
 
 
-def renumberings(n, all_upto, reparse_upto, rotations=True):
-    """The finite renumbering family of a molecule of n atoms."""
+def renumberings(n, all_upto, reparse_upto, full=True):
+    """The finite renumbering family of a molecule of n atoms.
+
+    n <= all_upto      all n! index permutations by RenumberAtoms
+    n <= reparse_upto  all n! permuted molecules written as SMILES and parsed again
+    above those bounds every rotation of the index order, its reversal, the spelling
+                       rooted at every atom and the reversed spelling (full) or only the
+                       reversal and the reversed spelling (not full)
+    """
     ident = list(range(n))
     out = []
     if n <= all_upto:
@@ -491,12 +502,13 @@ def renumberings(n, all_upto, reparse_upto, rotations=True):
         if n <= reparse_upto:
             out += [["reparse", p] for p in perms]
     else:
-        if rotations:
+        if full:
             for s in range(1, n):
                 out.append(["renumber", ident[s:] + ident[:s]])
         out.append(["renumber", ident[::-1]])
     if n > reparse_upto:
-        out += [["rooted", r] for r in range(n)]
+        if full:
+            out += [["rooted", r] for r in range(n)]
         out.append(["reparse", ident[::-1]])
     return out
 
@@ -519,7 +531,7 @@ def group_names():
 def renumber_case(item):
     """worker: one molecule, every renumbering of the family, every non-carbon atom,
     every group"""
-    all_upto, reparse_upto, rotations, smiles = item
+    all_upto, reparse_upto, full, smiles = item
     mol = Chem.MolFromSmiles(smiles)
     if mol is None:
         return None
@@ -540,7 +552,7 @@ def renumber_case(item):
     base_g = G(mol)
     base_sig = base_g.signature()
     n_skipped = 0
-    for spec in renumberings(n, all_upto, reparse_upto, rotations):
+    for spec in renumberings(n, all_upto, reparse_upto, full):
         pm, pos = variant(mol, spec)
         if pm is None:
             continue
@@ -742,13 +754,13 @@ def run(tier, seed):
                 else "every 10th validation-corpus molecule (sorted list, offset 0)",
                 len(corpus), n_pat, len(group_names_in_parent()), fam[0], fam[1],
                 " (for the molecules only in U(C,N,O,S;5): all n! of both kinds for n <= 4, the "
-                "reversal, the rooted spellings and the reversed spelling for n = 5)"
+                "reversed index order and the reversed spelling for n = 5)"
                 if extra else "")),
         "samples": [
             {"pattern_match": [small[len(small) // 2], 0, patterns_in_parent()[0]]},
             {"pattern_match": [lib[0], 0, patterns_in_parent()[-1]]},
             {"pattern_match": [corpus[len(corpus) // 2], 0, patterns_in_parent()[1]]},
-            {"is_functional_group": [small[-1], "renumber", list(range(1, 4)) + [0]]},
+            {"is_functional_group": ["NC(=O)O", "urea", 0, ["reparse", [3, 2, 1, 0]]]},
         ],
         "molecules": n_mols,
         "pattern_structures": n_pat,
@@ -822,6 +834,11 @@ def replay(v):
             sub = "exception"
         else:
             pm, pos = variant(mol, c["spec"])
+            if pm is None:
+                return out
+            pg, bg = G(pm), G(mol)
+            if any(pg.bond.get((pos[a], pos[b])) != t for a, b, t in bg.blist):
+                return out
             got = ask_group(pm, c["group"], pos[c["atom"]])
             failed = got != base
             sub = "renumbering"
